@@ -11,7 +11,7 @@ lookup, scope of the communication constraint).
 import ast
 
 from ..model import walk_no_nested, norm, call_name, is_self_attr
-from ..facts import FuncFacts, facts_at
+from ..facts import FuncFacts, facts_at, count_paths
 from ..report import Ctx, AnalysisError
 from .. import relrules as R
 
@@ -152,6 +152,20 @@ def check(ctx: Ctx):
         and "v_agt = fixed_neighbors[v]" in t and f"arg_name = {a_bv}[v, v_agt].name" in t and f"cost_v += kwargs[arg_name] * {a_comm}({a_cand}, v, v_agt)" in t \
         and "candidate_cost += kwargs[locally_hosted] * cost_v" in t and "for v_agt in candidate_neighbors[v]" in t
     ctx.check(ok, "R-SUMS", "communication cost = x_local * (sum over fixed neighbours + sum over candidate neighbours' possible hosts)", comm, cc, "")
+    # every term of a defining sum is added: in each accumulation loop of the four cost functions, every pass of the loop body reaches its `+=` exactly once
+    n_terms = 0
+    for f_, fn_ in ((hcost, hc), (comm, cc)):
+        for lp_ in [l for l in ast.walk(fn_) if isinstance(l, ast.For)]:
+            accs = [a for a in lp_.body if isinstance(a, ast.AugAssign) and isinstance(a.op, ast.Add)]
+            if not accs:
+                continue
+            n_terms += 1
+            k_ = count_paths(lp_.body, lambda s_, accs=accs: 1 if s_ in accs else 0).k
+            ctx.check(k_.get("fall") == (len(accs), len(accs)) and "continue" not in k_ and "break" not in k_ and "return" not in k_, "R-SUMS",
+                      f"{f_.qualname}: every element of `{norm(lp_.iter)}` contributes its term", f_, lp_,
+                      "the cost is the sum over all the listed variables / neighbours: a `continue` (e.g. for a neighbour hosted on the same agent) removes terms from the sum, "
+                      "which is wrong for a general communication function")
+    ctx.check(n_terms >= 3, "R-SUMS", "accumulation loops of the hosting and communication costs enumerated", comm, cc, f"{n_terms} found")
     n_acc = 0
     for f_ in (hosted, capa, hcost, comm):
         n_acc += R.check_partial_sums(ctx, f_, f_.node, "R-SUMS")
@@ -172,6 +186,7 @@ def _enclosing_stmt(func_node, node):
 _R = "pydcop/reparation/removal.py"
 _P = "pydcop/reparation/__init__.py"
 VARIANTS = [
+    ("comm_skips_neighbours_on_same_agent", "pydcop/reparation/__init__.py", "            v_agt = fixed_neighbors[v]\n            candidate_cost +=", "            v_agt = fixed_neighbors[v]\n            if v_agt == agt_name:\n                continue\n            candidate_cost +=", "break", "R-SUMS"),
     ("comm_partial_sum_hoisted", "pydcop/reparation/__init__.py", "        for v in candidate_neighbors:\n            cost_v = 0.0\n            for v_agt in candidate_neighbors[v]:", "        cost_v = 0.0\n        for v in candidate_neighbors:\n            for v_agt in candidate_neighbors[v]:", "break", "R-SUMS"),
     ("candidates_keep_departed", _R, "    candidate_agents = list(set(candidate_agents).difference(set(departed)))\n", "    candidate_agents = list(set(candidate_agents))\n", "break", "R-FILTER"),
     ("info_keep_departed", _R, "    candidate_agents = list(discovery.replica_agents(orphan).difference(\n        departed))", "    candidate_agents = list(discovery.replica_agents(orphan))", "break", "R-FILTER"),
